@@ -4,7 +4,7 @@
 # undoes the change straight afterwards.  usage: tools/seedrun.sh <seed-id> <PROP> [PROP...]
 cd /verif
 id=$1; shift
-p=seeded/$id/patch.diff
+p=/verif/seeded/$id/patch.diff
 git -C /repo diff --quiet || { echo "/repo is not clean"; exit 2; }
 git -C /repo apply $p || { echo "$id: patch does not apply"; exit 2; }
 trap 'git -C /repo checkout -- .' EXIT
